@@ -3,7 +3,7 @@ import MontePyVerif.Model.World
 import MontePyVerif.Gen.Setters
 /-! Line-protocol driver for the world model (units U-world-reader, U-world-log, U-setter of C17).
     One JSON case per input line: `{"fuel": n, "ops": [...]}`; one JSON line back with, per operation, the
-    result and the process-wide state afterwards (queue, log non-empty, closure cell of the declaration used).
+    result and the process-wide state afterwards (queue, log non-empty, recursion limit, closure cell of the declaration used).
     The shape of the code (`Cfg`) is the one the translator read off the source (Gen/Setters.lean). -/
 open Lean MontePyVerif.World
 
@@ -14,12 +14,13 @@ def codeCfg : Cfg :=
     restartClearsLog := MontePyVerif.Gen.Setters.restartClearsLog
     slyParseRestarts := MontePyVerif.Gen.Setters.slyParseRestarts
     objectInitRestarts := MontePyVerif.Gen.Setters.objectInitRestarts
-    readInputRestarts := MontePyVerif.Gen.Setters.readInputRestarts }
+    readInputRestarts := MontePyVerif.Gen.Setters.readInputRestarts
+    setsRecursionLimit := MontePyVerif.Gen.Setters.setsRecursionLimit }
 
 def errName : Err → String
   | .parsing => "ParsingError" | .malformed => "MalformedInputError" | .fileNotFound => "FileNotFoundError"
   | .numberConflict => "NumberConflictError" | .brokenLink => "BrokenObjectLinkError"
-  | .noProblem => "NoProblem" | .indexError => "IndexError" | .hang => "hang"
+  | .noProblem => "NoProblem" | .indexError => "IndexError" | .hang => "hang" | .recursion => "RecursionError"
 
 def gateName : Gate → String
   | .noSetter => "AttributeError" | .typeError => "TypeError" | .passed => "passed"
@@ -41,6 +42,15 @@ def natAt (j : Json) (i : Nat) : Except String Nat := do
   let n ← (← arrAt j i).getInt?
   if n < 0 then throw "negative" else pure n.toNat
 
+/-- an optional trailing argument -/
+def optNatAt (j : Json) (i : Nat) : Except String (Option Nat) := do
+  let a ← j.getArr?
+  match a[i]? with
+  | some x => do
+    let n ← x.getInt?
+    pure (some n.toNat)
+  | none => pure none
+
 def intAt (j : Json) (i : Nat) : Except String Int := do (← arrAt j i).getInt?
 
 def natList (j : Json) : Except String (List Nat) := do
@@ -60,7 +70,8 @@ def parseBeh (j : Json) : Except String ParseBeh := do
 def parseItem (j : Json) : Except String Item := do
   match (← (← arrAt j 0).getStr?) with
   | "card" => pure (.card { num := ← intAt j 1, imp := ← intAt j 2, vol := ← intAt j 3,
-                            dangling := ← (← arrAt j 4).getBool? })
+                            dangling := ← (← arrAt j 4).getBool?,
+                            depth := (← optNatAt j 5).getD 0 })
   | "read" => pure (.read (← natAt j 1) (← parseBeh (← arrAt j 2)))
   | "bad" => pure (.bad (← parseBeh (← arrAt j 1)))
   | "other" => pure .other
@@ -80,7 +91,7 @@ def parseTypes (j : Json) : Except String Types :=
 
 def parseOp (j : Json) : Except String Op := do
   match (← (← arrAt j 0).getStr?) with
-  | "read" => pure (.read (← natAt j 1) (← natAt j 4) (← parseFiles (← arrAt j 2)) (← natAt j 3))
+  | "read" => pure (.read (← natAt j 1) (← natAt j 4) (← parseFiles (← arrAt j 2)) (← natAt j 3) ((← optNatAt j 5).getD 0))
   | "setImp" => pure (.setImp (← natAt j 1) (← natAt j 2) (← intAt j 3))
   | "setVol" => pure (.setVol (← natAt j 1) (← natAt j 2) (← intAt j 3))
   | "setNum" => pure (.setNum (← natAt j 1) (← natAt j 2) (← intAt j 3))
@@ -101,7 +112,7 @@ def runCase (j : Json) : Except String Json := do
   let ops ← (← j.getObjVal? "ops").getArr?
   let ops ← ops.toList.mapM parseOp
   -- the keys under which a queue can exist: 0 (one queue for the process) and every path of the case
-  let keys : List Nat := (0 :: ops.filterMap (fun op => match op with | .read _ path _ _ => some path | _ => none)).eraseDups
+  let keys : List Nat := (0 :: ops.filterMap (fun op => match op with | .read _ path _ _ _ => some path | _ => none)).eraseDups
   let keys := keys.toArray.qsort (· < ·) |>.toList
   let (_, out) := ops.foldl (fun (acc : World × List Json) op =>
       let (w1, r) := step codeCfg fuel acc.1 op
@@ -110,7 +121,7 @@ def runCase (j : Json) : Except String Json := do
         | _ => Json.null
       (w1, Json.mkObj [("res", resJson r), ("queue", Json.arr ((keys.filter (fun k => !(w1.queue k).isEmpty)).map
                           (fun k => Json.arr #[toJson k, toJson (w1.queue k)])).toArray), ("log", toJson (decide (w1.log > 0))),
-                       ("cell", cell)] :: acc.2)) (World.fresh, [])
+                       ("limit", toJson w1.interp.recLimit), ("cell", cell)] :: acc.2)) (World.fresh, [])
   return Json.arr out.reverse.toArray
 
 partial def loop (h : IO.FS.Stream) : IO Unit := do
